@@ -13,6 +13,8 @@ def setup(ctx):
     if "spy" not in _state:
         _state["spy"] = monitors.SolverSpy().install()
         _state["pool"] = cases.DissimPool()
+        # a stalled fast alignment becomes an exception (logical progress), never a hang of the worker
+        monitors.install_progress_monitor(limit=3)
     return _state["spy"], _state["pool"]
 
 
